@@ -4,7 +4,7 @@ import glob, importlib, json, os, re, sys
 V = os.path.dirname(os.path.dirname(os.path.abspath(__file__)))
 sys.path.insert(0, V)
 out = []
-out.append('### II.2 Rules as armed (generated from `sa/rules/*.py`)\n')
+out.append('(generated from `sa/rules/*.py`)\n')
 out.append('| Rule | Tier | Floor | What the rule decides |\n|---|---|---|---|')
 for i in range(1, 21):
     p = f'C{i:02d}'
@@ -17,7 +17,7 @@ for i in range(1, 21):
         out.append(f'| {p}.{rd.rid} | {rd.tier} | {rd.floor} | {rd.text} |')
 rules = '\n'.join(out)
 
-out = ['### II.5 Seeded changes from independent sub-agents (generated from `seeded/*/meta.json`)\n',
+out = ['(generated from `seeded/*/meta.json`)\n',
        '| Seed | Property | What it needs to manifest | Suite with patch | Result of the checks | Missed at first? |\n|---|---|---|---|---|---|']
 for mp in sorted(glob.glob(os.path.join(V, 'seeded', '*', 'meta.json'))):
     m = json.load(open(mp))
@@ -31,7 +31,7 @@ for mp in sorted(glob.glob(os.path.join(V, 'seeded', '*', 'meta.json'))):
 seeds = '\n'.join(out)
 
 k = json.load(open(os.path.join(V, 'known_findings.json')))['findings']
-out = ['### II.3 Findings on the tree and their disposition (generated from `known_findings.json`)\n',
+out = ['(generated from `known_findings.json`)\n',
        '| Property | Key (rule : construct) | Status | Commit | What failed |\n|---|---|---|---|---|']
 for f in k:
     what = re.sub(r'^fixed: property=\S+ \S+ ', '', f['what']).replace('|', '/')
